@@ -1131,9 +1131,12 @@ func eq(lhs, rhs reflect.Value) bool {
 	// All other types (e.g. functions) are
 	// compared directly. Two functions with the same contents
 	// are not considered equal unless they're the same
-	// physical object in memory.
+	// physical object in memory. Resolve both sides first so
+	// that a value taken from an array (an interface-kinded,
+	// addressable reflect.Value) compares equal to the same
+	// value obtained directly, e.g. null in [null].
 
-	return lhs == rhs
+	return jtypes.Resolve(lhs) == jtypes.Resolve(rhs)
 }
 
 func lt(lhs, rhs reflect.Value) bool {
